@@ -115,9 +115,30 @@ def check(pid, tier, scratch, replay):
         rest = [j for j in jobs if j not in keep]
         jobs = keep + rnd.sample(rest, max(0, 900 - len(keep)))
     results = props.replay_jobs(scratch, jobs)
-    race_reports, race_jobs = [], 0
-    if not quick:
-        race_reports, race_jobs = race_run(scratch, vlib.sample(jobs, 160, rnd))
+    # second clause (data races): a -race build of the replays that run goroutines against each other -
+    # queries and API writes racing with commits, the follower and the worker running freely with
+    # imports / removals and chain changes, free-running shutdown scenarios
+    rjobs = vlib.sample(jobs, 24 if quick else 160, rnd)
+    o = {'GenDepth': '14', 'GenRandom': 'TRUE'}
+    for cfg, mod, extra, ov in (('Gen_Pay.cfg', 'MC_Pay.tla', {}, dict(props.LIFE, **props.P)), ('Gen_Stake.cfg', 'MC_Stake.tla', props.STAKE_X, dict(props.REMOVE_ONLY, **props.P)),
+                                ('Gen_Pay.cfg', 'MC_Pay.tla', {}, dict(props.MS, **props.P))):
+        oo = dict(o)
+        oo.update(ov)
+        r = vlib.tlc(cfg, mod, scratch, overrides=oo, simulate=dict(num=20 if quick else 200, depth=15, seed=vlib.seed() * 17 + 5))
+        vlib.require_clean(r, 'generator (free-running, race build) ' + cfg)
+        u = dict(r['universe'])
+        u.update(extra)
+        hs = [h for h in (json.loads(x) for x in sorted(set(r['histories']))) if props.no_crash(h)]
+        for k, h in enumerate(vlib.sample(hs, 14 if quick else 150, rnd)):
+            rjobs.append(dict(u=u, h=h, mode='free', opt=dict(seed=vlib.seed() * 100 + k)))
+    g5 = vlib.tlc('Gen_Pay.cfg', 'MC_Pay.tla', scratch, overrides={'GenDepth': '2', 'GenForkLen': '0', 'Lifecycle': 'TRUE', 'ImportBatch': '1',
+                  'Wallets': '{"w1", "w2", "w3", "w4", "w5"}', 'InitAbsent': '{"w2", "w3", "w4", "w5"}'})
+    vlib.require_clean(g5, 'universe with five wallets')
+    scen = [(['import', 'import'], 3), (['remove'], 2), (['import', 'remove', 'import', 'import'], 4), (['remove', 'import'], 3)]
+    for i in range(8 if quick else 80):
+        t, b = scen[i % len(scen)]
+        rjobs.append(dict(u=g5['universe'], h=[], mode='stop-free', opt=dict(tasks=t, blocks=b, seed=vlib.seed() * 1000 + i, final='stopped')))
+    race_reports, race_jobs = race_run(scratch, rjobs)
     known = [k for k in vlib.load_known() if k.get('property') == pid and k.get('status') == 'known']
     viol, hits, infra, raced = [], {}, 0, 0
     for job, res in zip(jobs, results):
